@@ -120,13 +120,34 @@ def run(cx):
 
     # ---- C15-POT -----------------------------------------------------------------------------
     r = cx.rule("C15-POT", "Potentiometer.read() is translated to a fresh analogRead of the declared pin on every call", floor=3)
-    ctx = {"potentiometer_names": {"dev"}, "potentiometer_pins": {"dev": "A3"}}
-    out = dl.Interp(pm, opaque={"ast.parse": ast.parse}).call(tce, ["dev.read()", {}, ctx])
-    r.check(out.kind == "return" and out.value == "analogRead(A3)", "pot.read/analogRead(declared-pin)", (pm, tce), f"dev.read() -> {out!r}")
-    st_pins = [n for n in walk_local(psl) if isinstance(n, ast.Assign) and "potentiometer_pins" in norm(n.targets[0]) and norm(n.value) == "pin_value"]
-    r.check(len(st_pins) == 1, "pot.decl/pin-recorded", (pm, psl), "the declared analogue pin must be recorded for read()")
+    # scripts through parse(): every read() of a declared potentiometer becomes an analogRead of *its* pin, once per call
+    src_ = ("from Reduino.Sensors import Potentiometer\npot = Potentiometer('A3')\nknob = Potentiometer(pin='A1')\nv = 0\nw = 0\n"
+            "while True:\n    v = pot.read()\n    w = knob.read() + pot.read()\n    if knob.read() > 5:\n        v = pot.read() * 2\n")
+    try:
+        _it, outp = pe.parse_source(src_)
+    except dl.Unsupported as e:
+        raise AnalysisError(f"parse() left the evaluable subset on the potentiometer script: {e}")
+    if outp.kind != "return":
+        r.fail("pot.read/script-accepted", (pm, pm.func("parse")), f"the potentiometer script is rejected with {outp.value}")
+    else:
+        texts = []
+
+        def _collect(nodes):
+            for n_ in nodes:
+                for k_, v_ in vars(n_).items():
+                    if isinstance(v_, str) and k_ not in ("name", "c_type"):
+                        texts.append(v_)
+                for f_ in ("body", "else_body", "branches"):
+                    sub = getattr(n_, f_, None)
+                    if isinstance(sub, list):
+                        _collect(sub)
+        _collect(list(outp.value.loop_body))
+        reads = re.findall(r"analogRead\(\s*(\w+)\s*\)", " ; ".join(texts))
+        r.check(sorted(reads) == ["A1", "A1", "A3", "A3", "A3"], "pot.read/analogRead(declared-pin)", (pm, tce), f"the loop reads {reads}; the script reads pot (A3) three times and knob (A1) twice, each read() must be one analogRead of the declared pin")
+        decls = {n_.name: str(n_.pin) for n_ in outp.value.setup_body if type(n_).__name__ == "PotentiometerDecl"}
+        r.check(decls == {"pot": "A3", "knob": "A1"}, "pot.decl/pin-recorded", (pm, psl), f"declared potentiometers: {decls}")
     res = pe.emit_program(setup=[l2.decl_node("Potentiometer")], loop=[])
-    r.check("pinMode(A0, INPUT);" in (res.text or ""), "pot.decl/pinMode-INPUT", (em, em.func("emit")), "a potentiometer pin must be configured as INPUT")
+    r.check(re.search(r"pinMode\(\s*A0\s*,\s*INPUT\s*\)\s*;", res.text or "") is not None, "pot.decl/pinMode-INPUT", (em, em.func("emit")), "a potentiometer pin must be configured as INPUT")
 
     # a sensor read written twice is performed twice: tuple assignment keeps one evaluation per right-hand side
     from . import c01
